@@ -1346,11 +1346,13 @@ int yr_parser_reduce_import(yyscan_t yyscanner, SIZED_STRING* module_name)
   FAIL_ON_ERROR(yr_object_create(
       OBJECT_TYPE_STRUCTURE, module_name->c_string, NULL, &module_structure));
 
-  FAIL_ON_ERROR(yr_hash_table_add(
-      compiler->objects_table,
-      module_name->c_string,
-      ns->name,
-      module_structure));
+  FAIL_ON_ERROR_WITH_CLEANUP(
+      yr_hash_table_add(
+          compiler->objects_table,
+          module_name->c_string,
+          ns->name,
+          module_structure),
+      yr_object_destroy(module_structure));
 
   result = yr_modules_do_declarations(module_name->c_string, module_structure);
 
